@@ -23,7 +23,7 @@ def explain(fn, args, kwargs):
             t0, f0 = int(fn.split('__')[1]), int(fn.split('__')[2])
             return dict(first='%s:%s' % (A.TYPES[t0], A.FORMS[f0]), second='%s:%s' % (A.TYPES[args[0]], A.FORMS[args[1]]))
         if fam == 'un':
-            return dict(arms='%s,%s' % (A.TYPES[args[0]], A.TYPES[args[1]]), discs='%s,%s' % (A.DISCS[args[2]], A.DISCS[args[3]]))
+            return dict(arms='%s,%s' % (A.TYPES[int(fn.split('__')[1])], A.TYPES[args[0]]), discs='%s,%s' % (A.DISCS[args[1]], A.DISCS[args[2]]))
         return dict(values='%s,%s' % (A.ENUMV[args[0]], A.ENUMV[args[1]]))
     return A.explain(fn, lambda: globals()[fn](*args), decode)
 
@@ -82,21 +82,27 @@ def run(tier):
     types0 = range(ntypes) if tier != 'quick' else [0, 4, 5, 6]
     for a in types0:
         for f in range(len(A.FORMS)):
-            fn = 'st__%d__%d' % (a, f)
-            body.append('def %s(t1: int, f1: int, has_post: bool, sizer_pos: int, sizer_t: int, dup_name: bool) -> bool:\n    """\n'
-                        '    pre: 0 <= t1 < %d and 0 <= f1 < %d and 0 <= sizer_pos <= 2 and 0 <= sizer_t < %d\n'
-                        '    pre: (not dup_name) or (has_post and sizer_pos == 0 and sizer_t == 0)\n    post: _\n    """\n'
-                        '    return A.struct_coherent(%d, %d, t1, f1, has_post, sizer_pos, sizer_t, dup_name)\n\n'
-                        % (fn, ntypes, len(A.FORMS), len(A.SIZER_T), a, f))
-            conds.append(Cond(path, fn, 'struct/%s:%s+any' % (A.TYPES[a], A.FORMS[f]),
-                              dict(check='struct acceptance coherence', first_member='%s %s' % (A.TYPES[a], A.FORMS[f]),
-                                   symbolic='second member type and form, trailing member, sizer position / type, duplicate name'),
-                              sample_args=[0, 0, True, 0, 0, False]))
-    body.append('def un__0(t0: int, t1: int, dsel0: int, dsel1: int, dup_name: bool) -> bool:\n    """\n'
-                '    pre: 0 <= t0 < %d and 0 <= t1 < %d and 0 <= dsel0 < %d and 0 <= dsel1 < %d\n    post: _\n    """\n'
-                '    return A.union_coherent(t0, t1, dsel0, dsel1, dup_name, False)\n\n' % (ntypes, ntypes, len(A.DISCS), len(A.DISCS)))
-    conds.append(Cond(path, 'un__0', 'union/2-arms', dict(check='union acceptance coherence', symbolic='arm types, discriminator magnitudes, duplicate name'),
-                      sample_args=[0, 4, 0, 1, False]))
+            # a first member of form 'ext' makes the sizer position / type matter on every path: one condition per position
+            splits = [None] if A.FORMS[f] != 'ext' else [0, 1, 2, 3]
+            for sp in splits:
+                fn = 'st__%d__%d' % (a, f) + ('' if sp is None else '__s%d' % sp)
+                sp_pre = '0 <= sizer_pos <= 3' if sp is None else 'sizer_pos == %d' % sp
+                body.append('def %s(t1: int, f1: int, has_post: bool, sizer_pos: int, sizer_t: int, dup_name: bool) -> bool:\n    """\n'
+                            '    pre: 0 <= t1 < %d and 0 <= f1 < %d and %s and 0 <= sizer_t < %d\n'
+                            '    pre: (not dup_name) or (has_post and sizer_pos == 0 and sizer_t == 0)\n    post: _\n    """\n'
+                            '    return A.struct_coherent(%d, %d, t1, f1, has_post, sizer_pos, sizer_t, dup_name)\n\n'
+                            % (fn, ntypes, len(A.FORMS), sp_pre, len(A.SIZER_T), a, f))
+                conds.append(Cond(path, fn, 'struct/%s:%s+any' % (A.TYPES[a], A.FORMS[f]) + ('' if sp is None else '/sizer-pos%d' % sp),
+                                  dict(check='struct acceptance coherence', first_member='%s %s' % (A.TYPES[a], A.FORMS[f]),
+                                       symbolic='second member type and form, trailing member, sizer position / type, duplicate name'),
+                                  sample_args=[0, 0, True, sp or 0, 0, False]))
+    for a in range(ntypes):
+        body.append('def un__%d(t1: int, dsel0: int, dsel1: int, dup_name: bool) -> bool:\n    """\n'
+                    '    pre: 0 <= t1 < %d and 0 <= dsel0 < %d and 0 <= dsel1 < %d\n    post: _\n    """\n'
+                    '    return A.union_coherent(%d, t1, dsel0, dsel1, dup_name, False)\n\n' % (a, ntypes, len(A.DISCS), len(A.DISCS), a))
+        conds.append(Cond(path, 'un__%d' % a, 'union/%s+any' % A.TYPES[a], dict(check='union acceptance coherence', first_arm=A.TYPES[a],
+                                                                                symbolic='second arm type, discriminator magnitudes, duplicate name'),
+                          sample_args=[4, 0, 1, False]))
     body.append('def en__0(vsel0: int, vsel1: int, dup_name: bool) -> bool:\n    """\n    pre: 0 <= vsel0 < %d and 0 <= vsel1 < %d\n    post: _\n    """\n'
                 '    return A.enum_coherent(vsel0, vsel1, dup_name)\n\n' % (len(A.ENUMV), len(A.ENUMV)))
     conds.append(Cond(path, 'en__0', 'enum/2-members', dict(check='enum acceptance coherence', symbolic='enumerator magnitudes, duplicate name'), sample_args=[0, 1, False]))
